@@ -45,7 +45,16 @@ def _dir(name):
 def write_replay(prop, core, example):
     h = hashlib.sha1((prop + "|" + core).encode()).hexdigest()[:12]
     path = os.path.join(_dir("replays"), f"{prop}-{h}.json")
-    write_json(path, {"property": prop, "core": core, "case": example["case"], "detail": example["detail"]})
+    from . import unittest_gen
+
+    test = None
+    try:
+        test = unittest_gen.for_case(prop, example["case"])
+    except Exception:  # noqa
+        test = None
+    write_json(path, {"property": prop, "core": core, "case": example["case"], "detail": example["detail"],
+                      "replay_cmd": f"./check {prop} --replay {path}",
+                      "plain_unit_test": test or f"(no stand-alone form for this case kind; use ./check {prop} --replay {path})"})
     return path
 
 
